@@ -86,3 +86,12 @@ Definition verdict_case_ok (c : vcase) : bool :=
   | Ok (_ :: _), Ok [] => false
   | _, _ => true
   end.
+
+(* C08 compares "returns or raises (which class)" and the number of reported errors *)
+Definition total_case_ok (c : vcase) : bool :=
+  let '(m, s, v, obs) := c in
+  match validateR m s [] v, obs with
+  | Ok es, Ok es' => Nat.eqb (length es) (length es')
+  | Raise e, Raise e' => eq_exn e e'
+  | _, _ => false
+  end.
